@@ -181,50 +181,70 @@ const I_KEYWORDS: [&str; 50] = ["REM", "RUN", "DEL", "LIST", "NEW", "CLR", "AUTO
     "INPUT", "FOR", "NEXT", "RETURN", "GOSUB", "GOTO", "IF", "PRINT", "POKE", "COLOR", "PLOT", "HLIN", "VLIN", "VTAB", "POP", "NODSP", "NOTRACE", "DSP",
     "TRACE", "PR", "IN", "CALL", "TEXT", "GR", "NOT", "PEEK", "RND", "SGN", "ABS", "PDL", "LEN", "ASC", "SCRN"];
 
-/// failure class of an Integer BASIC round-trip failure, from the token stream:
-/// a variable name that begins with a keyword (the external grammar is ambiguous there), or a byte in a
-/// string / REM payload that the detokenizer prints in a form the tokenizer does not reproduce
-fn classify_i(t: &[u8], generic: &str, listing_rejected: bool) -> String {
+/// items of an Integer BASIC line body, by the token structure (names are runs of negative ASCII that
+/// start with a letter; `B0..B9` at the start of an item is a number token)
+enum ItemI { Tok(u8), Num, Name(String), Str(Vec<u8>), Rem(Vec<u8>) }
+
+fn items_i(b: &[u8]) -> Vec<ItemI> {
+    let mut out = Vec::new();
+    let mut i = 0;
+    while i < b.len() {
+        let c = b[i];
+        i += 1;
+        if c == 0x28 {
+            let st = i;
+            while i < b.len() && b[i] != 0x29 { i += 1; }
+            out.push(ItemI::Str(b[st..i].to_vec()));
+            i += 1;
+        } else if c == 0x5D {
+            out.push(ItemI::Rem(b[i..].to_vec()));
+            i = b.len();
+        } else if (0xB0..=0xB9).contains(&c) {
+            i += 2;
+            out.push(ItemI::Num);
+        } else if c >= 0x80 {
+            let mut name = String::new();
+            name.push((c - 0x80) as char);
+            while i < b.len() && b[i] >= 0x80 { name.push((b[i] - 0x80) as char); i += 1; }
+            out.push(ItemI::Name(name));
+        } else {
+            out.push(ItemI::Tok(c));
+        }
+    }
+    out
+}
+
+/// failure class of an Integer BASIC round-trip failure of ONE line, decided by the structure of its
+/// token stream:
+/// * `IF` token directly followed by a number token: the external grammar reads `IF8…` of the listing as
+///   a variable name (the typed form with a leading zero, `IF 08`, is accepted) → `if-number-reparsed`;
+/// * a variable name that begins with a keyword (`THEN REM W`, `THEN RUN 29423` are read as the names
+///   `REMW`, `RUN29423`; the listing is re-read as the statement) → `name-begins-with-keyword`;
+/// * a byte in a string / REM payload that the detokenizer prints in a form the tokenizer does not
+///   reproduce → `escaped-byte-not-reproduced`;
+/// * otherwise the generic signature.
+fn classify_i(t: &[u8], generic: &str) -> String {
     let mut escape_class = false;
+    let mut kw_name = false;
+    let mut if_num = false;
     if let Some(lines) = walk_len_i(t) {
         for (_, b) in lines {
-            let mut i = 0;
-            while i < b.len() {
-                let c = b[i];
-                i += 1;
-                if c == 0x28 || c == 0x5D {
-                    while i < b.len() && !(c == 0x28 && b[i] == 0x29) {
-                        let x = b[i];
-                        if x == 0x80 || (0xE1..=0xFA).contains(&x) || (c == 0x28 && x == 0xA2) { escape_class = true; }
-                        i += 1;
-                    }
-                    i += 1;
-                } else if (0xB0..=0xB9).contains(&c) { i += 2; }
-                else if c >= 0x80 {
-                    let mut name = String::new();
-                    name.push((c - 0x80) as char);
-                    while i < b.len() && b[i] >= 0x80 { name.push((b[i] - 0x80) as char); i += 1; }
-                    if I_KEYWORDS.iter().any(|k| name.starts_with(k)) { return "c14/integer/name-begins-with-keyword".to_string(); }
+            let items = items_i(&b);
+            for (k, it) in items.iter().enumerate() {
+                match it {
+                    ItemI::Str(p) => { if p.iter().any(|x| *x == 0x80 || (0xE1..=0xFA).contains(x) || *x == 0xA2 || *x == 0xDC) { escape_class = true; } }
+                    ItemI::Rem(p) => { if p.iter().any(|x| *x == 0x80 || (0xE1..=0xFA).contains(x) || *x == 0xDC) { escape_class = true; } }
+                    ItemI::Name(n) => { if I_KEYWORDS.iter().any(|kw| n.starts_with(kw)) { kw_name = true; } }
+                    ItemI::Tok(0x60) => { if let Some(ItemI::Num) = items.get(k + 1) { if_num = true; } }
+                    _ => {}
                 }
             }
         }
     }
-    // `IF <number> THEN`: the external grammar reads `IF8…` of the listing as a variable name (typed `IF 08` is accepted)
-    if !listing_rejected { return if escape_class { "c14/integer/escaped-byte-not-reproduced".to_string() } else { generic.to_string() }; }
-    if let Some(lines) = walk_len_i(t) {
-        for (_, b) in lines {
-            let mut i = 0;
-            while i < b.len() {
-                let c = b[i];
-                i += 1;
-                if c == 0x28 { while i < b.len() && b[i] != 0x29 { i += 1; } i += 1; }
-                else if c == 0x5D { break; }
-                else if (0xB0..=0xB9).contains(&c) { i += 2; }
-                else if c == 0x60 && i < b.len() && (0xB0..=0xB9).contains(&b[i]) { return "c14/integer/if-number-reparsed".to_string(); }
-            }
-        }
-    }
-    if escape_class { "c14/integer/escaped-byte-not-reproduced".to_string() } else { generic.to_string() }
+    if if_num { "c14/integer/if-number-reparsed".to_string() }
+    else if kw_name { "c14/integer/name-begins-with-keyword".to_string() }
+    else if escape_class { "c14/integer/escaped-byte-not-reproduced".to_string() }
+    else { generic.to_string() }
 }
 
 /// code part of an Applesoft program text, normalised: per line, blanks removed and upper case outside
@@ -260,7 +280,7 @@ fn integer_sig(src: &str, generic: &str) -> String {
         if !accepted_i(&l) { continue; }
         let t = match tok_i(&l) { Ok(Ok(t)) => t, _ => continue };
         let s = match detok_i(&t) { Ok(Ok(s)) => s, _ => { sigs.push(generic.to_string()); continue; } };
-        if !accepted_i(&s) { sigs.push(classify_i(&t, generic, true)); continue; }
+        if !accepted_i(&s) { sigs.push(classify_i(&t, generic)); continue; }
         let same = match tok_i(&s) {
             Ok(Ok(t2)) => {
                 let a = walk_len_i(&t).map(|l| l.into_iter().map(|(n, b)| (n, strip_head_i(&b))).collect::<Vec<_>>());
@@ -269,7 +289,7 @@ fn integer_sig(src: &str, generic: &str) -> String {
             }
             _ => false,
         };
-        if !same { sigs.push(classify_i(&t, generic, false)); }
+        if !same { sigs.push(classify_i(&t, generic)); }
     }
     if let Some(s) = sigs.iter().find(|s| !known.contains(&s.as_str())) { return s.clone(); }
     sigs.first().cloned().unwrap_or(generic.to_string())
